@@ -18,7 +18,7 @@ import (
 func init() {
 	Registry["C01"] = C01
 	Metas["C01"] = Meta{
-		Explanation: "Decides, for every public method of both cache implementations and on every abstract path (absent / live / expired state of the key x outcomes of user functions x nil-ness of callback and visitor), the per-call clauses of C01 by role evaluation (abstract interpretation of the method's SSA with the underlying map operations replaced by their contract): (T1) the expiry predicates decide exactly 'e > 0 and now > e' with a clock read in the call (or the caller-supplied reading for the with-now variant); every expiry decision taken anywhere in a method has that canonical shape and uses a clock reading made during the call, and an entry that a read-modify-write treats as live and hands out (result, user function, re-armed item) was compared with a reading made inside that operation's closure, i.e. after the key's lock was taken; (T2) no value or expiration instant of an item obtained from the map reaches an API output - a result, an argument of the user's function or visitor, the Items map - unless that very item tested unexpired on the path (callback arguments are exempt: callbacks report removed, possibly expired, values); (T3) each method's decision table - abstract state of the key as seen by the deciding map operation -> (map effect, returned roles, user calls, callbacks) - equals the reviewed TTL-map reference table; (T4) an entry is removed because of expiry only when it tested expired; (T5) the premises the tables rest on are restated from their own rule families: the map-operation contract (C11.L1-L3) and the integrity of entries across grow / shrink / Clear (C03/C04 P4, P6, P8, P10); (T6, 386 configuration) the 64-bit words updated atomically are aligned (C14.A7). The per-path rules T2/T4 and the canonical-shape rule also run over exported methods added beyond the reviewed list, wherever the evaluator models them completely. NOT decided: sequences of calls (each call is checked against the contract of the map operations, whose own shape is decided in C03/C04/C11), clock behaviour, int64 overflow of now+d.",
+		Explanation: "Decides, for every public method of both cache implementations and on every abstract path (absent / live / expired state of the key x outcomes of user functions x nil-ness of callback and visitor), the per-call clauses of C01 by role evaluation (abstract interpretation of the method's SSA with the underlying map operations replaced by their contract): (T1) the expiry predicates decide exactly 'e > 0 and now > e' with a clock read in the call (or the caller-supplied reading for the with-now variant); every expiry decision taken anywhere in a method has that canonical shape and uses a clock reading made during the call, and an entry that a read-modify-write treats as live and hands out (result, user function, re-armed item) was compared with a reading made inside that operation's closure, i.e. after the key's lock was taken, and the reading an entry is judged with was made before any evicted callback or user function the call runs after having observed it; (T2) no value or expiration instant of an item obtained from the map reaches an API output - a result, an argument of the user's function or visitor, the Items map - unless that very item tested unexpired on the path (callback arguments are exempt: callbacks report removed, possibly expired, values); (T3) each method's decision table - abstract state of the key as seen by the deciding map operation -> (map effect, returned roles, user calls, callbacks) - equals the reviewed TTL-map reference table; (T4) an entry is removed because of expiry only when it tested expired; (T5) the premises the tables rest on are restated from their own rule families: the map-operation contract (C11.L1-L3) and the integrity of entries across grow / shrink / Clear (C03/C04 P4, P6, P8, P10); (T6, 386 configuration) the 64-bit words updated atomically are aligned (C14.A7). The per-path rules T2/T4 and the canonical-shape rule also run over exported methods added beyond the reviewed list, wherever the evaluator models them completely. NOT decided: sequences of calls (each call is checked against the contract of the map operations, whose own shape is decided in C03/C04/C11), clock behaviour, int64 overflow of now+d.",
 		Rule:        "one obligation per (rule, method, abstract path or table row); non-trivial = the verdict depended on at least one evaluated path; paths are partitioned by the branch atoms the method tests",
 		Assumptions: []string{"the map-operation contract used by the evaluator (checked against the compute core by C11.L1 on the same run)", "user functions are pure with respect to the cache"},
 	}
@@ -236,6 +236,23 @@ func c01T2T4(r *Run, rep *core.Report, mp *MethodPaths) {
 				}
 				if k, ok := clockIndex(st.Clock); ok && inside && used && k <= ev.ClockBefore {
 					badShape["staleclock"] = fmt.Sprintf("the entry observed by the %s at %s is judged unexpired inside the operation's closure against clock reading #%d, which was taken before the operation began (it may have waited for the key's lock since): a value that expired meanwhile is treated as live", ev.Name, ev.Pos, k)
+				}
+			}
+			// T1 (no user code before the judgement): the clock reading an entry's expiry is judged with was made before any
+			// evicted callback or user function that this call runs after having observed the entry - user code may take
+			// arbitrarily long, and an entry that was live when it was observed (removed, returned) would be reported expired
+			if st.Clock != nil && ev.Name != "Range" && ev.InRange == 0 {
+				if k, ok := clockIndex(st.Clock); ok {
+					after := false
+					for _, e2 := range p.Events {
+						if e2.Kind == "mapop" && e2.N == ev.N {
+							after = true
+							continue
+						}
+						if after && (e2.Kind == "callback" || e2.Kind == "usercall") && e2.InOp != ev.N && e2.InRange == 0 && e2.ClockBefore < k {
+							badShape["lateclock"] = fmt.Sprintf("the expiry of the entry observed by the %s at %s is judged against clock reading #%d, made after the %s at %s ran: user code can take arbitrarily long, so an entry that was live when it was observed is reported expired", ev.Name, ev.Pos, k, e2.Kind, e2.Pos)
+						}
+					}
 				}
 			}
 			// T4: physical removal motivated by expiry only of an entry that tested expired.
